@@ -2,5 +2,592 @@ import TrimeshVerif.Model.Reindex
 import TrimeshVerif.Proofs.SortRuns
 import TrimeshVerif.Proofs.Grouping
 namespace TV.Reindex
+open TV
+
+variable {α β γ δ : Type}
+
+/-! ### maskFilter -/
+
+@[simp] theorem maskFilter_nil_left (mask : List Bool) : maskFilter ([] : List γ) mask = [] := by
+  simp [maskFilter]
+
+@[simp] theorem maskFilter_nil_right (l : List γ) : maskFilter l [] = [] := by
+  simp [maskFilter]
+
+theorem maskFilter_cons_cons (x : γ) (l : List γ) (b : Bool) (mask : List Bool) :
+    maskFilter (x :: l) (b :: mask) = if b then x :: maskFilter l mask else maskFilter l mask := by
+  cases b <;> simp [maskFilter]
+
+theorem maskFilter_map (f : γ → δ) : ∀ (l : List γ) (mask : List Bool),
+    maskFilter (l.map f) mask = (maskFilter l mask).map f
+  | [], _ => by simp
+  | _ :: _, [] => by simp
+  | x :: l, b :: mask => by
+    have ih := maskFilter_map f l mask
+    cases b <;> simp [maskFilter_cons_cons, ih]
+
+theorem mem_of_mem_maskFilter {x : γ} : ∀ {l : List γ} {mask : List Bool}, x ∈ maskFilter l mask → x ∈ l
+  | [], _, h => by simp at h
+  | _ :: _, [], h => by simp at h
+  | y :: l, b :: mask, h => by
+    rw [maskFilter_cons_cons] at h
+    cases b
+    · simp at h; exact List.mem_cons_of_mem _ (mem_of_mem_maskFilter h)
+    · simp at h
+      rcases h with h | h
+      · simp [h]
+      · exact List.mem_cons_of_mem _ (mem_of_mem_maskFilter h)
+
+theorem maskFilter_length_congr : ∀ (l₁ : List γ) (l₂ : List δ) (mask : List Bool),
+    l₁.length = l₂.length → (maskFilter l₁ mask).length = (maskFilter l₂ mask).length
+  | [], [], _, _ => by simp
+  | [], _ :: _, _, h => by simp at h
+  | _ :: _, [], _, h => by simp at h
+  | _ :: _, _ :: _, [], _ => by simp
+  | x :: l₁, y :: l₂, b :: mask, h => by
+    have ih := maskFilter_length_congr l₁ l₂ mask (by simpa using h)
+    cases b <;> simp [maskFilter_cons_cons, ih]
+
+/-- a kept element sits at the position given by the number of kept elements before it -/
+theorem maskFilter_getElem?_count : ∀ (l : List γ) (mask : List Bool) (i : Nat),
+    mask.getD i false = true →
+    (maskFilter l mask)[((mask.take i).filter id).length]? = l[i]?
+  | [], _, _, _ => by simp
+  | _ :: _, [], i, h => by simp at h
+  | x :: l, b :: mask, 0, h => by
+    simp at h; subst h
+    simp [maskFilter_cons_cons]
+  | x :: l, b :: mask, i + 1, h => by
+    have ih := maskFilter_getElem?_count l mask i (by simpa using h)
+    cases b <;> simp [maskFilter_cons_cons, ih]
+
+theorem lt_length_of_getD_true {mask : List Bool} {i : Nat} (h : mask.getD i false = true) :
+    i < mask.length := by
+  apply Decidable.byContradiction
+  intro hc
+  simp [List.getD, List.getElem?_eq_none (Nat.le_of_not_lt hc)] at h
+
+theorem inverseOfBool_getD (mask : List Bool) (i : Nat) (h : mask.getD i false = true) :
+    (inverseOfBool mask).getD i 0 = ((mask.take i).filter id).length := by
+  have hi : i < mask.length := lt_length_of_getD_true h
+  simp [inverseOfBool, List.getD, hi] at h ⊢
+  simp [h]
+
+theorem maskFilter_inverse_getElem? (l : List γ) (mask : List Bool) (i : Nat)
+    (h : mask.getD i false = true) :
+    (maskFilter l mask)[(inverseOfBool mask).getD i 0]? = l[i]? := by
+  rw [inverseOfBool_getD mask i h, maskFilter_getElem?_count l mask i h]
+
+/-! ### update_faces -/
+
+theorem updateFacesBool_spec (m : Mesh α β) (mask : List Bool) :
+    triangles (updateFacesBool m mask) = maskFilter (triangles m) mask ∧
+    (updateFacesBool m mask).FA = maskFilter m.FA mask ∧
+    (updateFacesBool m mask).V = m.V ∧
+    (m.F.length = m.FA.length → (updateFacesBool m mask).F.length = (updateFacesBool m mask).FA.length) ∧
+    (InRange m → InRange (updateFacesBool m mask)) := by
+  refine ⟨?_, rfl, rfl, ?_, ?_⟩
+  · simp [triangles, updateFacesBool, maskFilter_map]
+  · intro h; exact maskFilter_length_congr _ _ _ h
+  · intro hr f hf
+    exact hr f (mem_of_mem_maskFilter hf)
+
+theorem filterMap_getElem?_map (f : γ → δ) (l : List γ) (idx : List Nat) :
+    (idx.filterMap (l[·]?)).map f = idx.filterMap ((l.map f)[·]?) := by
+  induction idx with
+  | nil => rfl
+  | cons i idx ih =>
+    simp only [List.filterMap_cons, List.getElem?_map]
+    cases l[i]? <;> simp [ih]
+
+theorem filterMap_getElem?_length (l : List γ) (idx : List Nat) (h : ∀ i ∈ idx, i < l.length) :
+    (idx.filterMap (l[·]?)).length = idx.length := by
+  induction idx with
+  | nil => rfl
+  | cons i idx ih =>
+    have hi : i < l.length := h i (by simp)
+    simp only [List.filterMap_cons, List.getElem?_eq_getElem hi, List.length_cons]
+    rw [ih (fun j hj => h j (List.mem_cons_of_mem _ hj))]
+
+theorem mem_filterMap_getElem? {l : List γ} {idx : List Nat} {x : γ}
+    (h : x ∈ idx.filterMap (l[·]?)) : x ∈ l := by
+  obtain ⟨i, _, hi⟩ := List.mem_filterMap.mp h
+  exact List.mem_of_getElem? hi
+
+theorem updateFacesIdx_spec (m : Mesh α β) (idx : List Nat) (h : ∀ i ∈ idx, i < m.F.length)
+    (hFA : m.F.length = m.FA.length) :
+    triangles (updateFacesIdx m idx) = idx.filterMap ((triangles m)[·]?) ∧
+    (updateFacesIdx m idx).FA = idx.filterMap (m.FA[·]?) ∧
+    (updateFacesIdx m idx).F.length = idx.length ∧ (updateFacesIdx m idx).FA.length = idx.length ∧
+    (InRange m → InRange (updateFacesIdx m idx)) := by
+  refine ⟨?_, rfl, ?_, ?_, ?_⟩
+  · simp only [triangles, updateFacesIdx]
+    exact filterMap_getElem?_map _ _ _
+  · exact filterMap_getElem?_length _ _ h
+  · exact filterMap_getElem?_length _ _ (fun i hi => hFA ▸ h i hi)
+  · intro hr f hf
+    exact hr f (mem_filterMap_getElem? hf)
+
+/-! ### update_vertices -/
+
+theorem updateVerticesBool_spec (m : Mesh α β) (mask : List Bool) (hr : InRange m)
+    (hkeep : ∀ f ∈ m.F, mask.getD f.1 false = true ∧ mask.getD f.2.1 false = true ∧ mask.getD f.2.2 false = true) :
+    triangles (updateVerticesBool m mask) = triangles m ∧
+    (updateVerticesBool m mask).V = maskFilter m.V mask ∧
+    (updateVerticesBool m mask).FA = m.FA ∧
+    InRange (updateVerticesBool m mask) := by
+  refine ⟨?_, rfl, rfl, ?_⟩
+  · simp only [triangles, updateVerticesBool, List.map_map]
+    apply List.map_congr_left
+    intro f hf
+    obtain ⟨h1, h2, h3⟩ := hkeep f hf
+    simp only [Function.comp, corners, mapFace, maskFilter_inverse_getElem? _ _ _ h1,
+      maskFilter_inverse_getElem? _ _ _ h2, maskFilter_inverse_getElem? _ _ _ h3]
+  · intro f hf
+    simp only [updateVerticesBool] at hf ⊢
+    obtain ⟨g, hg, rfl⟩ := List.mem_map.mp hf
+    obtain ⟨h1, h2, h3⟩ := hkeep g hg
+    obtain ⟨r1, r2, r3⟩ := hr g hg
+    have key : ∀ i, mask.getD i false = true → i < m.V.length →
+        (inverseOfBool mask).getD i 0 < (maskFilter m.V mask).length := by
+      intro i hi hlt
+      have := maskFilter_inverse_getElem? m.V mask i hi
+      rw [List.getElem?_eq_getElem hlt] at this
+      exact (List.getElem?_eq_some_iff.mp this).1
+    exact ⟨key _ h1 r1, key _ h2 r2, key _ h3 r3⟩
+
+theorem referencedMask_getD (m : Mesh α β) (hr : InRange m) :
+    ∀ f ∈ m.F, (referencedMask m).getD f.1 false = true ∧ (referencedMask m).getD f.2.1 false = true ∧
+      (referencedMask m).getD f.2.2 false = true := by
+  intro f hf
+  obtain ⟨r1, r2, r3⟩ := hr f hf
+  simp only [referencedMask, List.getD, List.getElem?_map, List.getElem?_range r1,
+    List.getElem?_range r2, List.getElem?_range r3, Option.map_some, Option.getD_some, List.any_eq_true]
+  exact ⟨⟨f, hf, by simp⟩, ⟨f, hf, by simp⟩, ⟨f, hf, by simp⟩⟩
+
+theorem removeUnreferenced_spec (m : Mesh α β) (hr : InRange m) :
+    triangles (removeUnreferenced m) = triangles m ∧ InRange (removeUnreferenced m) ∧
+    (removeUnreferenced m).V = maskFilter m.V (referencedMask m) ∧
+    (removeUnreferenced m).FA = m.FA := by
+  obtain ⟨h1, h2, h3, h4⟩ := updateVerticesBool_spec m (referencedMask m) hr (referencedMask_getD m hr)
+  exact ⟨h1, h4, h2, h3⟩
+
+/-! ### unmerge -/
+
+theorem flatMap_three_length (g : γ → List δ) : ∀ (l : List γ), (∀ x ∈ l, (g x).length = 3) →
+    (l.flatMap g).length = 3 * l.length
+  | [], _ => rfl
+  | x :: l, h => by
+    have ih := flatMap_three_length g l (fun y hy => h y (List.mem_cons_of_mem _ hy))
+    have hx := h x (by simp)
+    simp only [List.flatMap_cons, List.length_append, List.length_cons, ih, hx]; omega
+
+theorem flatMap_three_getElem? (g : γ → List δ) : ∀ (l : List γ), (∀ x ∈ l, (g x).length = 3) →
+    ∀ (i : Nat) (hi : i < l.length) (k : Nat), k < 3 → (l.flatMap g)[3 * i + k]? = (g l[i])[k]?
+  | [], _, i, hi, _, _ => by simp at hi
+  | x :: l, h, 0, _, k, hk => by
+    have hx := h x (by simp)
+    simp only [List.flatMap_cons, Nat.mul_zero, Nat.zero_add, List.getElem_cons_zero]
+    rw [List.getElem?_append_left (by omega)]
+  | x :: l, h, i + 1, hi, k, hk => by
+    have hx := h x (by simp)
+    have ih := flatMap_three_getElem? g l (fun y hy => h y (List.mem_cons_of_mem _ hy)) i
+      (by simpa using hi) k hk
+    simp only [List.flatMap_cons, List.getElem_cons_succ]
+    rw [List.getElem?_append_right (by omega), ← ih]
+    congr 1; omega
+
+theorem unmerge_spec (m : Mesh α β) (hr : InRange m) :
+    triangles (unmerge m) = triangles m ∧ InRange (unmerge m) ∧
+    (unmerge m).V.length = 3 * m.F.length ∧ (unmerge m).FA = m.FA := by
+  let g : Face → List α := fun f => [m.V[f.1]?, m.V[f.2.1]?, m.V[f.2.2]?].filterMap id
+  have hg : ∀ f ∈ m.F, g f = [m.V[f.1]?, m.V[f.2.1]?, m.V[f.2.2]?].filterMap id := fun _ _ => rfl
+  have hg3 : ∀ f ∈ m.F, (g f).length = 3 := by
+    intro f hf
+    obtain ⟨r1, r2, r3⟩ := hr f hf
+    simp [g, List.getElem?_eq_getElem r1, List.getElem?_eq_getElem r2, List.getElem?_eq_getElem r3]
+  have hV : (unmerge m).V = m.F.flatMap g := rfl
+  have hlen : (unmerge m).V.length = 3 * m.F.length := by
+    rw [hV]; exact flatMap_three_length g m.F hg3
+  refine ⟨?_, ?_, hlen, rfl⟩
+  · apply List.ext_getElem?
+    intro i
+    simp only [triangles, List.getElem?_map]
+    show Option.map (corners (unmerge m).V) ((List.range m.F.length).map (fun i => (3 * i, 3 * i + 1, 3 * i + 2)))[i]? = _
+    by_cases hi : i < m.F.length
+    · obtain ⟨r1, r2, r3⟩ := hr _ (List.getElem_mem hi)
+      have e0 := flatMap_three_getElem? g m.F hg3 i hi 0 (by omega)
+      have e1 := flatMap_three_getElem? g m.F hg3 i hi 1 (by omega)
+      have e2 := flatMap_three_getElem? g m.F hg3 i hi 2 (by omega)
+      simp only [Nat.add_zero] at e0
+      simp only [List.getElem?_map, List.getElem?_range hi, List.getElem?_eq_getElem hi,
+        Option.map_some, corners, hV, e0, e1, e2]
+      simp [g, List.getElem?_eq_getElem r1, List.getElem?_eq_getElem r2, List.getElem?_eq_getElem r3]
+    · have hi' : m.F.length ≤ i := Nat.le_of_not_lt hi
+      simp [hi']
+  · intro f hf
+    have hf' : f ∈ (List.range m.F.length).map (fun i => (3 * i, 3 * i + 1, 3 * i + 2)) := hf
+    obtain ⟨i, hi, rfl⟩ := List.mem_map.mp hf'
+    have := List.mem_range.mp hi
+    rw [hlen]; simp only; omega
+
+/-! ### append / concatenate -/
+
+theorem append_spec (a b : Mesh α β) (ha : InRange a) (hb : InRange b) :
+    triangles (append a b) = triangles a ++ triangles b ∧ (append a b).FA = a.FA ++ b.FA ∧
+    InRange (append a b) := by
+  refine ⟨?_, rfl, ?_⟩
+  · simp only [triangles, append, List.map_append, List.map_map]
+    congr 1
+    · apply List.map_congr_left
+      intro f hf
+      obtain ⟨r1, r2, r3⟩ := ha f hf
+      simp only [corners, List.getElem?_append_left r1, List.getElem?_append_left r2,
+        List.getElem?_append_left r3]
+    · apply List.map_congr_left
+      intro f _
+      simp [corners, mapFace, List.getElem?_append_right]
+  · intro f hf
+    simp only [append, List.mem_append, List.mem_map, List.length_append] at hf ⊢
+    rcases hf with hf | ⟨g, hg, rfl⟩
+    · obtain ⟨r1, r2, r3⟩ := ha f hf
+      exact ⟨by omega, by omega, by omega⟩
+    · obtain ⟨r1, r2, r3⟩ := hb g hg
+      simp only [mapFace]
+      exact ⟨by omega, by omega, by omega⟩
+
+theorem foldl_append_spec : ∀ (ms : List (Mesh α β)) (acc : Mesh α β), InRange acc →
+    (∀ m ∈ ms, InRange m) →
+    triangles (ms.foldl append acc) = triangles acc ++ (ms.map triangles).flatten ∧
+    (ms.foldl append acc).FA = acc.FA ++ (ms.map (·.FA)).flatten ∧ InRange (ms.foldl append acc)
+  | [], acc, hacc, _ => by simp [hacc]
+  | m :: ms, acc, hacc, h => by
+    obtain ⟨a1, a2, a3⟩ := append_spec acc m hacc (h m (by simp))
+    obtain ⟨i1, i2, i3⟩ := foldl_append_spec ms (append acc m) a3 (fun x hx => h x (List.mem_cons_of_mem _ hx))
+    simp only [List.foldl_cons, List.map_cons, List.flatten_cons]
+    refine ⟨?_, ?_, i3⟩
+    · rw [i1, a1, List.append_assoc]
+    · rw [i2, a2, List.append_assoc]
+
+theorem concatenate_spec (ms : List (Mesh α β)) (h : ∀ m ∈ ms, InRange m) :
+    triangles (concatenate ms) = (ms.map triangles).flatten ∧
+    (concatenate ms).FA = (ms.map (·.FA)).flatten ∧ InRange (concatenate ms) := by
+  have := foldl_append_spec ms { V := [], F := [], FA := [] } (by intro f hf; simp at hf) h
+  simpa [concatenate, triangles] using this
+
+/-! ### submesh -/
+
+theorem submesh_spec (m : Mesh α β) (idx : List Nat) (hr : InRange m) (h : ∀ i ∈ idx, i < m.F.length)
+    (hFA : m.F.length = m.FA.length) :
+    triangles (submesh m idx) = idx.filterMap ((triangles m)[·]?) ∧
+    (submesh m idx).FA = idx.filterMap (m.FA[·]?) ∧ InRange (submesh m idx) := by
+  obtain ⟨u1, u2, _, _, u5⟩ := updateFacesIdx_spec m idx h hFA
+  obtain ⟨r1, r2, _, r4⟩ := removeUnreferenced_spec (updateFacesIdx m idx) (u5 hr)
+  exact ⟨by rw [submesh, r1, u1], by rw [submesh, r4, u2], r2⟩
+
+/-! ### split / concatenate -/
+
+theorem zip_filterMap_getElem? (l₁ : List γ) (l₂ : List δ) (hl : l₁.length = l₂.length) :
+    ∀ (idx : List Nat), (∀ i ∈ idx, i < l₁.length) →
+    (idx.filterMap (l₁[·]?)).zip (idx.filterMap (l₂[·]?)) = idx.filterMap ((l₁.zip l₂)[·]?)
+  | [], _ => rfl
+  | i :: idx, h => by
+    have hi : i < l₁.length := h i (by simp)
+    have hi2 : i < l₂.length := hl ▸ hi
+    have ih := zip_filterMap_getElem? l₁ l₂ hl idx (fun j hj => h j (List.mem_cons_of_mem _ hj))
+    have hz : (l₁.zip l₂)[i]? = some (l₁[i], l₂[i]) :=
+      List.getElem?_zip_eq_some.mpr ⟨List.getElem?_eq_getElem hi, List.getElem?_eq_getElem hi2⟩
+    simp only [List.filterMap_cons, List.getElem?_eq_getElem hi, List.getElem?_eq_getElem hi2, hz,
+      List.zip_cons_cons, ih]
+
+theorem zip_flatten_map {ι : Type} (f : ι → List γ) (g : ι → List δ) : ∀ (cs : List ι),
+    (∀ c ∈ cs, (f c).length = (g c).length) →
+    (cs.map f).flatten.zip (cs.map g).flatten = (cs.map (fun c => (f c).zip (g c))).flatten
+  | [], _ => rfl
+  | c :: cs, h => by
+    have ih := zip_flatten_map f g cs (fun d hd => h d (List.mem_cons_of_mem _ hd))
+    simp only [List.map_cons, List.flatten_cons]
+    rw [List.zip_append (h c (by simp)), ih]
+
+theorem filterMap_getElem?_range_take (l : List γ) : ∀ n, n ≤ l.length →
+    (List.range n).filterMap (l[·]?) = l.take n
+  | 0, _ => by simp
+  | n + 1, h => by
+    have ih := filterMap_getElem?_range_take l n (by omega)
+    have hn : n < l.length := by omega
+    rw [List.range_succ, List.filterMap_append, ih, List.take_add_one]
+    simp [List.getElem?_eq_getElem hn]
+
+theorem filterMap_getElem?_range (l : List γ) : (List.range l.length).filterMap (l[·]?) = l := by
+  rw [filterMap_getElem?_range_take l _ (Nat.le_refl _), List.take_length]
+
+theorem split_concat_spec (m : Mesh α β) (comps : List (List Nat)) (hr : InRange m)
+    (hFA : m.F.length = m.FA.length)
+    (hpart : comps.flatten.Perm (List.range m.F.length)) :
+    ((triangles (concatenate (split m comps))).zip (concatenate (split m comps)).FA).Perm
+      ((triangles m).zip m.FA) := by
+  have hc : ∀ c ∈ comps, ∀ i ∈ c, i < m.F.length := by
+    intro c hc i hi
+    exact List.mem_range.mp (hpart.mem_iff.mp (List.mem_flatten.mpr ⟨c, hc, hi⟩))
+  have hsub : ∀ c ∈ comps, _ := fun c h => submesh_spec m c hr (hc c h) hFA
+  have hin : ∀ x ∈ split m comps, InRange x := by
+    intro x hx
+    obtain ⟨c, hcm, rfl⟩ := List.mem_map.mp hx
+    exact (hsub c hcm).2.2
+  obtain ⟨c1, c2, _⟩ := concatenate_spec (split m comps) hin
+  have hT : (triangles m).length = m.F.length := by simp [triangles]
+  have e1 : (split m comps).map triangles = comps.map (fun c => c.filterMap ((triangles m)[·]?)) := by
+    simp only [split, List.map_map]
+    apply List.map_congr_left
+    intro c h; exact (hsub c h).1
+  have e2 : (split m comps).map (·.FA) = comps.map (fun c => c.filterMap (m.FA[·]?)) := by
+    simp only [split, List.map_map]
+    apply List.map_congr_left
+    intro c h; exact (hsub c h).2.1
+  rw [c1, c2, e1, e2, zip_flatten_map]
+  · have e3 : comps.map (fun c => (c.filterMap ((triangles m)[·]?)).zip (c.filterMap (m.FA[·]?)))
+        = comps.map (fun c => c.filterMap (((triangles m).zip m.FA)[·]?)) := by
+      apply List.map_congr_left
+      intro c h
+      exact zip_filterMap_getElem? _ _ (hT.trans hFA) c (fun i hi => hT ▸ hc c h i hi)
+    rw [e3, ← List.filterMap_flatten]
+    have hZ : ((triangles m).zip m.FA).length = m.F.length := by
+      simp [List.length_zip, hT, ← hFA]
+    have := hpart.filterMap (((triangles m).zip m.FA)[·]?)
+    rw [← hZ, filterMap_getElem?_range] at this
+    exact this
+  · intro c h
+    rw [filterMap_getElem?_length _ _ (fun i hi => hT ▸ hc c h i hi),
+      filterMap_getElem?_length _ _ (fun i hi => hFA ▸ hc c h i hi)]
+
+/-! ### unique faces -/
+
+theorem head_le_of_mem_ascending {g : List Nat} (hasc : g.Pairwise (· ≤ ·)) {i : Nat} (hi : i ∈ g) :
+    g.headD 0 ≤ i := by
+  cases g with
+  | nil => simp at hi
+  | cons a t =>
+    simp only [List.headD_cons]
+    rcases List.mem_cons.mp hi with e | e
+    · omega
+    · exact (List.pairwise_cons.mp hasc).1 i e
+
+theorem mem_unique_iff_first {κ : Type} [DecidableEq κ] {vs : List κ} {gs : List (List Nat)}
+    (h : IsGrouping vs gs) {i : Nat} (hi : i < vs.length) :
+    i ∈ (uniqueOfGroups vs.length gs).1 ↔ ∀ j, j < i → vs[j]? ≠ vs[i]? := by
+  constructor
+  · intro hu; exact h.unique_first hu
+  · intro hfirst
+    obtain ⟨g, hg, hig⟩ := h.covers hi
+    have hhead := headD_mem (h.ne_nil g hg)
+    have hle := head_le_of_mem_ascending (h.ascending g hg) hig
+    have hsame := h.same g hg _ hhead _ hig
+    have : g.headD 0 = i := by
+      rcases Nat.lt_or_eq_of_le hle with hlt | e
+      · exact absurd hsame (hfirst _ hlt)
+      · exact e
+    simp only [uniqueOfGroups]
+    exact List.mem_map.mpr ⟨g, hg, this⟩
+
+theorem uniqueFacesMask_spec (m : Mesh α β) (i : Nat) (hi : i < m.F.length) :
+    (uniqueFacesMask m)[i]? = some (decide (∀ j, j < i → (m.F.map sort3)[j]? ≠ (m.F.map sort3)[i]?)) := by
+  have hG := groupsOf_isGrouping TV.Grouping.lexLe_isOrder (m.F.map sort3)
+  have hi' : i < (m.F.map sort3).length := by simpa using hi
+  have hiff := mem_unique_iff_first hG hi'
+  have e : (uniqueIdxInv lexLe (m.F.map sort3)).1
+      = (uniqueOfGroups (m.F.map sort3).length (groupsOf lexLe (m.F.map sort3))).1 := rfl
+  simp only [uniqueFacesMask, List.getElem?_map, List.getElem?_range hi, Option.map_some, e]
+  congr 1
+  rw [Bool.eq_iff_iff]
+  simp only [List.contains_iff_mem, decide_eq_true_eq]
+  simpa only [List.getElem?_map] using hiff
+
+/-! ### merge_vertices -/
+
+theorem filterMap_getElem?_of_isSome (f : γ → Option δ) : ∀ (l : List γ), (∀ x ∈ l, (f x).isSome) →
+    ∀ k : Nat, (l.filterMap f)[k]? = l[k]?.bind f
+  | [], _, k => by simp
+  | x :: l, h, k => by
+    have ih := filterMap_getElem?_of_isSome f l (fun y hy => h y (List.mem_cons_of_mem _ hy))
+    obtain ⟨y, hy⟩ := Option.isSome_iff_exists.mp (h x (by simp))
+    rw [List.filterMap_cons, hy]
+    cases k with
+    | zero => simp [hy]
+    | succ k => simp [ih k]
+
+theorem filterMap_length_of_isSome (f : γ → Option δ) : ∀ (l : List γ), (∀ x ∈ l, (f x).isSome) →
+    (l.filterMap f).length = l.length
+  | [], _ => rfl
+  | x :: l, h => by
+    have ih := filterMap_length_of_isSome f l (fun y hy => h y (List.mem_cons_of_mem _ hy))
+    obtain ⟨y, hy⟩ := Option.isSome_iff_exists.mp (h x (by simp))
+    rw [List.filterMap_cons, hy]; simp [ih]
+
+theorem filterMap_map_some_of_isSome (f : γ → Option δ) : ∀ (l : List γ), (∀ x ∈ l, (f x).isSome) →
+    (l.filterMap f).map some = l.map f
+  | [], _ => rfl
+  | x :: l, h => by
+    have ih := filterMap_map_some_of_isSome f l (fun y hy => h y (List.mem_cons_of_mem _ hy))
+    obtain ⟨y, hy⟩ := Option.isSome_iff_exists.mp (h x (by simp))
+    rw [List.filterMap_cons, hy]; simp [ih, hy]
+
+/-- indices of the referenced vertices, ascending -/
+def refIdxOf (m : Mesh α β) : List Nat :=
+  (List.range m.V.length).filter (fun v => (referencedMask m).getD v false)
+
+theorem mem_refIdxOf {m : Mesh α β} {v : Nat} :
+    v ∈ refIdxOf m ↔ v < m.V.length ∧ (referencedMask m).getD v false = true := by
+  simp [refIdxOf]
+
+theorem refIdxOf_sorted (m : Mesh α β) : (refIdxOf m).Pairwise (· < ·) :=
+  List.Pairwise.filter _ List.pairwise_lt_range
+
+theorem referencedMask_length (m : Mesh α β) : (referencedMask m).length = m.V.length := by
+  simp [referencedMask]
+
+theorem mergeVertices_spec {κ : Type} [DecidableEq κ] (le : κ → κ → Bool) (hle : IsOrder le) (key : α → κ)
+    (m : Mesh α β) (hr : InRange m) :
+    let m' := mergeVertices le key m
+    InRange m' ∧ m'.F.length = m.F.length ∧ m'.FA = m.FA ∧
+    (∀ i (h : i < m.F.length) (h' : i < m'.F.length),
+      (m'.V[(m'.F[i]).1]?).map key = (m.V[(m.F[i]).1]?).map key ∧
+      (m'.V[(m'.F[i]).2.1]?).map key = (m.V[(m.F[i]).2.1]?).map key ∧
+      (m'.V[(m'.F[i]).2.2]?).map key = (m.V[(m.F[i]).2.2]?).map key) ∧
+    (m'.V.map key).Nodup ∧
+    (∀ a ∈ m'.V, ∃ v, m.V[v]? = some a ∧ (referencedMask m).getD v false = true ∧
+        ∀ w, w < v → (referencedMask m).getD w false = true → (m.V[w]?).map key ≠ some (key a)) := by
+  intro m'
+  -- names for the pieces of the definition
+  let refIdx := refIdxOf m
+  let keys : List κ := refIdx.filterMap (fun v => (m.V[v]?).map key)
+  let gs := orderByHead (groupsOf le keys)
+  let ui := uniqueOfGroups keys.length gs
+  let keep := ui.1.map (fun u => refIdx.getD u 0)
+  let inverse := (List.range m.V.length).map (fun v =>
+    match refIdx.idxOf? v with
+    | some k => ui.2.getD k 0
+    | none => 0)
+  have hm' : m' = updateVerticesInv m keep inverse := rfl
+  have hV' : m'.V = keep.filterMap (m.V[·]?) := rfl
+  have hF' : m'.F = m.F.map (mapFace (fun i => inverse.getD i 0)) := rfl
+  have hG : IsGrouping keys gs :=
+    (groupsOf_isGrouping hle keys).of_perm (orderByHead_perm _).symm
+  -- keys
+  have hsome : ∀ v ∈ refIdx, ((m.V[v]?).map key).isSome := by
+    intro v hv
+    have := (mem_refIdxOf.mp hv).1
+    simp [List.getElem?_eq_getElem this]
+  have hkeys_len : keys.length = refIdx.length := filterMap_length_of_isSome _ _ hsome
+  have hkeys_get : ∀ k : Nat, keys[k]? = refIdx[k]?.bind (fun v => (m.V[v]?).map key) :=
+    filterMap_getElem?_of_isSome _ _ hsome
+  have hkeys_get' : ∀ k (hk : k < refIdx.length), keys[k]? = (m.V[refIdx[k]]?).map key := by
+    intro k hk; rw [hkeys_get k, List.getElem?_eq_getElem hk]; rfl
+  -- members of ui.1 are valid positions
+  have hu_lt : ∀ u ∈ ui.1, u < refIdx.length := by
+    intro u hu
+    obtain ⟨g, hg, rfl⟩ := List.mem_map.mp hu
+    rw [← hkeys_len]
+    exact hG.mem_lt hg (headD_mem (hG.ne_nil g hg))
+  have hkeep_some : ∀ w ∈ keep, (m.V[w]?).isSome := by
+    intro w hw
+    obtain ⟨u, hu, rfl⟩ := List.mem_map.mp hw
+    have hlt := hu_lt u hu
+    have hmem : refIdx[u] ∈ refIdx := List.getElem_mem hlt
+    have := (mem_refIdxOf.mp hmem).1
+    simp [List.getD, List.getElem?_eq_getElem hlt, List.getElem?_eq_getElem this]
+  have hV'_len : m'.V.length = keep.length := by
+    rw [hV']; exact filterMap_length_of_isSome _ _ hkeep_some
+  have hV'_get : ∀ k : Nat, m'.V[k]? = keep[k]?.bind (m.V[·]?) := by
+    intro k; rw [hV']; exact filterMap_getElem?_of_isSome _ _ hkeep_some k
+  -- corner lemma
+  have hcorner : ∀ v, v < m.V.length → (referencedMask m).getD v false = true →
+      (m'.V[inverse.getD v 0]?).map key = (m.V[v]?).map key ∧ inverse.getD v 0 < m'.V.length := by
+    intro v hv href
+    have hmem : v ∈ refIdx := mem_refIdxOf.mpr ⟨hv, href⟩
+    have hidx : (refIdx.idxOf? v).isSome := List.isSome_idxOf?.mpr hmem
+    obtain ⟨k, hk⟩ := Option.isSome_iff_exists.mp hidx
+    obtain ⟨hklt, hkv, _⟩ := List.idxOf?_eq_some_iff.mp hk
+    have hk' : k < keys.length := by rw [hkeys_len]; exact hklt
+    obtain ⟨k', u, h1, h2, h3⟩ := hG.unique_reconstruct hk'
+    have hinv : inverse.getD v 0 = k' := by
+      simp only [inverse, List.getD, List.getElem?_map, List.getElem?_range hv, Option.map_some,
+        Option.getD_some, hk]
+      show (ui.2[k]?).getD 0 = k'
+      rw [h1]; rfl
+    have hu : u ∈ ui.1 := List.mem_of_getElem? h2
+    have hult := hu_lt u hu
+    have hkeepk : keep[k']? = some refIdx[u] := by
+      simp only [keep, List.getElem?_map]
+      show Option.map _ (ui.1[k']?) = _
+      rw [h2]; simp [List.getD, List.getElem?_eq_getElem hult]
+    have e : (m'.V[inverse.getD v 0]?).map key = (m.V[v]?).map key := by
+      rw [hinv, hV'_get k', hkeepk]
+      simp only [Option.bind_some]
+      rw [← hkeys_get' u hult, h3, hkeys_get' k hklt, hkv]
+    refine ⟨e, ?_⟩
+    rw [List.getElem?_eq_getElem hv] at e
+    cases hx : m'.V[inverse.getD v 0]? with
+    | none => rw [hx] at e; simp at e
+    | some x => exact (List.getElem?_eq_some_iff.mp hx).1
+  have href := referencedMask_getD m hr
+  refine ⟨?_, ?_, rfl, ?_, ?_, ?_⟩
+  · -- InRange
+    intro f hf
+    rw [hF'] at hf
+    obtain ⟨g, hg, rfl⟩ := List.mem_map.mp hf
+    obtain ⟨r1, r2, r3⟩ := hr g hg
+    obtain ⟨q1, q2, q3⟩ := href g hg
+    exact ⟨(hcorner _ r1 q1).2, (hcorner _ r2 q2).2, (hcorner _ r3 q3).2⟩
+  · rw [hF']; simp
+  · intro i h h'
+    have hmemF : m.F[i] ∈ m.F := List.getElem_mem h
+    obtain ⟨r1, r2, r3⟩ := hr _ hmemF
+    obtain ⟨q1, q2, q3⟩ := href _ hmemF
+    have hFi : m'.F[i] = mapFace (fun i => inverse.getD i 0) m.F[i] := by
+      simp only [hF', List.getElem_map]
+    rw [hFi]
+    exact ⟨(hcorner _ r1 q1).1, (hcorner _ r2 q2).1, (hcorner _ r3 q3).1⟩
+  · -- Nodup
+    have e : (m'.V.map key).map some = ui.1.map (fun u => keys[u]?) := by
+      rw [List.map_map]
+      have : (some ∘ key : α → Option κ) = (Option.map key) ∘ some := by funext x; rfl
+      rw [this, ← List.map_map, hV', filterMap_map_some_of_isSome _ _ hkeep_some]
+      simp only [keep, List.map_map]
+      apply List.map_congr_left
+      intro u hu
+      have hult := hu_lt u hu
+      simp only [Function.comp, List.getD, List.getElem?_eq_getElem hult, Option.getD_some]
+      exact (hkeys_get' u hult).symm
+    have hd := hG.unique_distinct
+    have hp : ((m'.V.map key).map some).Pairwise (· ≠ ·) := by
+      rw [e]; exact List.pairwise_map.mpr hd
+    exact List.Pairwise.of_map some (fun a b h e => h (congrArg some e)) hp
+  · -- first referenced vertex of its key
+    intro a ha
+    rw [hV'] at ha
+    obtain ⟨w, hw, hwa⟩ := List.mem_filterMap.mp ha
+    obtain ⟨u, hu, rfl⟩ := List.mem_map.mp hw
+    have hult := hu_lt u hu
+    have hgetD : refIdx.getD u 0 = refIdx[u] := by
+      simp [List.getD, List.getElem?_eq_getElem hult]
+    rw [hgetD] at hwa
+    have hmem : refIdx[u] ∈ refIdx := List.getElem_mem hult
+    refine ⟨refIdx[u], hwa, (mem_refIdxOf.mp hmem).2, ?_⟩
+    intro w hwlt hwref
+    have hwV : w < m.V.length := Nat.lt_trans hwlt (mem_refIdxOf.mp hmem).1
+    have hwmem : w ∈ refIdx := mem_refIdxOf.mpr ⟨hwV, hwref⟩
+    obtain ⟨j, hj, hjw⟩ := List.getElem_of_mem hwmem
+    have hsorted := List.pairwise_iff_getElem.mp (refIdxOf_sorted m)
+    have hju : j < u := by
+      rcases Nat.lt_trichotomy j u with h | h | h
+      · exact h
+      · subst h; omega
+      · have := hsorted u j hult hj h
+        have e1 : (refIdxOf m)[j] = w := hjw
+        have e2 : (refIdxOf m)[u] = refIdx[u] := rfl
+        omega
+    have hfirst := hG.unique_first hu j hju
+    rw [hkeys_get' j hj, hkeys_get' u hult, hjw, hwa] at hfirst
+    exact hfirst
 
 end TV.Reindex
